@@ -54,10 +54,12 @@ func (boltkv *BoltKV) Get(id []byte) ([]byte, error) {
 	var out []byte
 	err := boltkv.db.View(func(tx *bolt.Tx) error {
 		b := tx.Bucket(graphBucket)
-		out = b.Get(id)
-		if out == nil {
+		o := b.Get(id)
+		if o == nil {
 			return fmt.Errorf("Not Found")
 		}
+		//the returned slice is only valid during the transaction
+		out = copyBytes(o)
 		return nil
 	})
 	return out, err
@@ -78,8 +80,8 @@ func (boltkv *BoltKV) DeletePrefix(id []byte) error {
 		b := tx.Bucket(graphBucket)
 		odel := make([][]byte, 0, 100)
 		c := b.Cursor()
-		for k, _ := c.Seek([]byte(id)); bytes.HasPrefix(k, []byte(id)); k, _ = c.Next() {
-			odel = append(odel, k)
+		for k, _ := c.Seek([]byte(id)); k != nil && bytes.HasPrefix(k, []byte(id)); k, _ = c.Next() {
+			odel = append(odel, copyBytes(k))
 		}
 		for _, okey := range odel {
 			err := b.Delete(okey)
@@ -162,7 +164,7 @@ func (boltTrans boltTransaction) Get(id []byte) ([]byte, error) {
 func (boltTrans boltTransaction) HasKey(id []byte) bool {
 	b := boltTrans.tx.Bucket(graphBucket)
 	d := b.Get([]byte(id))
-	return d == nil
+	return d != nil
 }
 
 // View runs an iterator on bolt keyvalue store during transaction
@@ -236,15 +238,18 @@ func (boltIt *boltIterator) Seek(id []byte) error {
 func (boltIt *boltIterator) SeekReverse(id []byte) error {
 	boltIt.forward = false
 	k, v := boltIt.c.Seek(id)
+	if k == nil {
+		//every key is below id, start from the last one
+		k, v = boltIt.c.Last()
+	} else if bytes.Compare(id, k) < 0 {
+		//seek lands at value equal or above id. Move once to make sure
+		//key is less then id
+		k, v = boltIt.c.Prev()
+	}
 	if k == nil || v == nil {
 		boltIt.key = nil
 		boltIt.value = nil
 		return fmt.Errorf("Seek error")
-	}
-	//seek lands at value equal or above id. Move once to make sure
-	//key is less then id
-	if bytes.Compare(id, k) < 0 {
-		k, v = boltIt.c.Prev()
 	}
 	boltIt.key = copyBytes(k)
 	boltIt.value = copyBytes(v)
